@@ -23,6 +23,8 @@ from vf import known, registry  # noqa: E402
 PY = os.environ.get("VERIF_PYTHON", "/venv/bin/python")
 REPO = os.path.realpath(os.environ.get("VERIF_REPO", "/repo"))
 NCPU = int(os.environ.get("VERIF_JOBS", "0") or 0) or min(16, os.cpu_count() or 4)
+# evidence/ and replays/ live in the checkout; runs against a scratch tree (VERIF_REPO) can be redirected
+OUT = os.environ.get("VERIF_OUT") or ROOT
 
 
 def child_env():
@@ -143,7 +145,7 @@ def main(argv):
     meta = registry.CHECKS[prop]
     t0 = time.time()
     if not replay:
-        rdir = os.path.join(ROOT, "replays")
+        rdir = os.path.join(OUT, "replays")
         if os.path.isdir(rdir):
             for f in os.listdir(rdir):
                 if f.startswith(prop + "-") and f.endswith(".json"):
@@ -183,10 +185,10 @@ def main(argv):
 
     replay_paths = []
     if real and not replay:
-        os.makedirs(os.path.join(ROOT, "replays"), exist_ok=True)
+        os.makedirs(os.path.join(OUT, "replays"), exist_ok=True)
         for i, v in enumerate(real[:5]):
             path = os.path.join("replays", f"{prop}-{i}.json")
-            with open(os.path.join(ROOT, path), "w") as fh:
+            with open(os.path.join(OUT, path), "w") as fh:
                 json.dump({"property": prop, "tier": tier, "seed": seed, **v}, fh, indent=1)
             replay_paths.append(path)
 
@@ -212,8 +214,8 @@ def main(argv):
             "assumptions": meta.get("assumptions", []), "wall_s": round(wall, 2),
             "violations": len(real) if real else 0,
         }
-        os.makedirs(os.path.join(ROOT, "evidence"), exist_ok=True)
-        with open(os.path.join(ROOT, "evidence", f"{prop}.json"), "w") as fh:
+        os.makedirs(os.path.join(OUT, "evidence"), exist_ok=True)
+        with open(os.path.join(OUT, "evidence", f"{prop}.json"), "w") as fh:
             json.dump(ev, fh, indent=1, sort_keys=True)
 
     for kid in sorted(seen_known):
